@@ -3,6 +3,10 @@
 import json, subprocess
 
 CHECKS = {
+ "C16": ("exploration",
+         "Mail-path simulation: texts from a grammar rich in dash-initial lines, blanks, CRs, multi-byte characters and armor boundary strings are signed through sign/new/new_many (1-2 signers), armored, passed through a channel that rewrites body lines (identity, LF<->CRLF, trailing blanks stripped/added, bit flip, byte insert/delete) and read back through from_string / from_armor / from_armor_buf under read schedules. One symmetric oracle judges every channel: verify succeeds iff the reference signed form of the received body equals that of the original text, and signed_text() always equals the reference signed form of the received body; text() round-trips on the identity channel.",
+         "5 (C16)", "the 30-line reference model of the cleartext framework in the harness is the specification; the channel never touches the armor headers or the signature block",
+         "deterministic simulation of a rewriting channel with reference-model oracle"),
  "C02": ("fault_enumeration",
          "Hostile channel between signer and verifier: for signed objects from every signing interface (detached, one-pass and prefixed messages, cleartext, certifications, bindings, direct-key, revocations; v4/v6; five key algorithms) every bit of short contents, truncations/extensions, every bit of every hashed field of the signature packet (located by an independent signature-body parser), salt, sampled signature-value bits, the one-pass hash octet/salt, substituted keys and substituted signed objects; every applicable verification entry point must return Err. Cleartext is judged by the symmetric rule (reject iff the reference signed form changed).",
          "5 (C02)", "signatures/hashes unforgeable; unhashed area, MPI bit counts and the 16-bit prefix are outside the fault set; the cleartext signed-form reference model is 20 lines in the harness",
